@@ -46,7 +46,7 @@ Proof.
 Qed.
 
 (** C19: every 32-bit timestamp prints to a string that parses back to it *)
-Theorem timestamp_roundtrip t : 0 <= t < 2^32 -> parse_timestamp (timestamp_string t) = Some t.
+Theorem timestamp_roundtrip_canon t : 0 <= t < 2^32 -> parse_timestamp_canon (timestamp_string t) = Some t.
 Proof.
   intros Ht.
   assert (Hd : 0 <= t / 86400 < 49711) by lia.
@@ -61,12 +61,27 @@ Proof.
   pose proof (num4_four y ltac:(lia)) as Hy. pose proof (num2_two m ltac:(lia)) as Hm.
   pose proof (num2_two d ltac:(lia)) as Hdd. pose proof (num2_two (s / 3600) ltac:(lia)) as Hh.
   pose proof (num2_two (s / 60 mod 60) ltac:(lia)) as Hmi. pose proof (num2_two (s mod 60) ltac:(lia)) as Hss.
-  unfold four, two in *. cbn [app]. unfold parse_timestamp.
+  unfold four, two in *. cbn [app]. unfold parse_timestamp_canon.
   cbn [Z.eqb andb]. rewrite Hy, Hm, Hdd, Hh, Hmi, Hss.
   assert (Hchk : (1 <=? m) && (m <=? 12) && (1 <=? d) && (d <=? days_in y m) && (s / 3600 <? 24)
                  && (s / 60 mod 60 <? 60) && (s mod 60 <? 60) = true) by lia.
   rewrite Hchk. rewrite Hdc.
   assert (Hval : t / 86400 * 86400 + s / 3600 * 3600 + s / 60 mod 60 * 60 + s mod 60 = t) by (unfold s; lia).
   rewrite Hval. assert (Hr : (0 <=? t) && (t <? 2^32) = true) by lia. rewrite Hr. reflexivity.
+Qed.
+
+
+(** the printed form is already canonical: normalisation leaves it alone *)
+Lemma normalize_canonical t : normalize_ts (timestamp_string t) = Some (timestamp_string t).
+Proof.
+  unfold timestamp_string. destruct (civil_from_days (t / 86400)) as [[y m] d].
+  set (s := t mod 86400). unfold four, two. cbn [app]. unfold normalize_ts.
+  assert (Hb : is_digit (c0 + s / 3600 mod 10) = true) by (unfold is_digit, c0; lia).
+  rewrite Hb. rewrite andb_false_r. cbn [app]. reflexivity.
+Qed.
+
+Theorem timestamp_roundtrip t : 0 <= t < 2^32 -> parse_timestamp (timestamp_string t) = Some t.
+Proof.
+  intros Ht. unfold parse_timestamp. rewrite normalize_canonical. apply timestamp_roundtrip_canon. exact Ht.
 Qed.
 Print Assumptions timestamp_roundtrip.
